@@ -280,6 +280,15 @@ func zoneHandler(args []string) (string, []string) {
 		if !z.dayRegular(jd) {
 			class = "class=irregular-midnight"
 		}
+		// the two functions the interval is made of, called directly
+		if iv != nil {
+			e1 := utils.GetEpochByJd(jd, loc)
+			e2 := utils.GetEpochByGDate(gregCal.JdTo(jd), loc)
+			e3 := utils.GetEpochByJd(jd+1, loc)
+			if e1 != iv.Start || e2 != iv.Start || e3 != iv.End {
+				ps.add("C11", "%s op=dayiv-parts jd=%d IntervalByJd gives [%d,%d) but GetEpochByJd(jd)=%d GetEpochByGDate(date of jd)=%d GetEpochByJd(jd+1)=%d", tag, jd, iv.Start, iv.End, e1, e2, e3)
+			}
+		}
 		if iv.End < iv.Start {
 			ps.add("C11", "%s op=dayiv jd=%d %s interval [%d,%d) has negative length", tag, jd, class, iv.Start, iv.End)
 		}
@@ -489,6 +498,17 @@ func occRequest(ps *propSink, z *zoneState, sa, sb string) string {
 			continue
 		}
 		days := sortedInts(o.GetDaysJdList())
+		// Len is the number of members of the representation: days of a day set, intervals of a list
+		switch x := o.(type) {
+		case occurrence.JdOccurSet:
+			if x.Len() != len(days) {
+				ps.add("C12", "%s set %s: Len=%d but it reports %d days", tag, showOcc(o), x.Len(), len(days))
+			}
+		case occurrence.IntervalOccurSet:
+			if x.Len() != len(x.GetEpochIntervalList()) {
+				ps.add("C12", "%s set %s: Len=%d but it holds %d intervals", tag, showOcc(o), x.Len(), len(x.GetEpochIntervalList()))
+			}
+		}
 		want := map[int]bool{}
 		for _, iv := range o.GetEpochIntervalList() {
 			last := iv.End - 1
